@@ -13,7 +13,7 @@ RULE = (
     "case = (ping_interval I, ping_timeout T, payload, per-ping pong latencies: all < T | silent from ping n on | some "
     "late, server traffic times (data, pings, unsolicited pongs), schedule choices for ping thread vs reader + sampled "
     "line preemptions; every single preemption point of three fixed scenarios is swept), optionally as the second run on an object that already completed a healthy run). Grid: invalid pairs (T <= 0, I < 0, I <= T) and valid pairs T in {1,2,3,5} x I in {T+0.1, 1.5T, "
-    "2T, 2T+0.1, 3T, 10T} (all enumerated with silent and responsive peers; Hypothesis varies the rest). Non-trivial: "
+    "2T, 2T+0.1, 3T, 10T} (all enumerated with silent and responsive peers; Hypothesis varies the rest); interval only (no timeout) with responsive, silent and pong-dropping peers; built-in loop or an external (rel-style) dispatcher, into whose loop the timeout is raised. Non-trivial: "
     "scenario with >= 3 pings and either a silent suffix or server traffic within +-T of a ping; invalid pairs. "
     "Distinct = the scenario."
 )
@@ -100,6 +100,19 @@ def run_case(case):
             app.run_forever(ping_interval=I, ping_timeout=T, ping_payload=payload)
             res["first_pings"] = len(sc.peers[0][1].pings)
             del trace[:]
+        if case.get("external"):
+            # an external (rel-style) dispatcher: run_forever returns at once, the third-party loop drives reads and the liveness check,
+            # and a ping/pong timeout is reported by the exception that check raises into that loop
+            from .c15 import FakeRel
+
+            rel = FakeRel(sched)
+            res["ret"] = app.run_forever(ping_interval=I, ping_timeout=T, ping_payload=payload, dispatcher=rel)
+            rel.dispatch(until=sched.now + horizon_t + 1.0)
+            res["t_end"] = sched.now
+            for t, e in rel.error_log:
+                trace.append((t, "error", type(e).__name__, str(e)))
+            rel.dispatch(until=sched.now + 3 * I + 1)
+            return
         res["ret"] = app.run_forever(ping_interval=I, ping_timeout=T, ping_payload=payload)
         res["t_end"] = sched.now
         # let virtual time run on: no ping may be sent after the run ended
@@ -110,7 +123,7 @@ def run_case(case):
             main = sched.run(body)
         except simkit.HarnessStuck as e:
             raise HarnessError(str(e))
-    tag = f"I{'<=' if I <= 2 * T else '>'}2T"
+    tag = "interval-only" if T is None else f"I{'<=' if I <= 2 * T else '>'}2T"
     if sched.hang:
         obs.fail(f"{tag}|run-does-not-end|{sched.hang[0]}", sched.hang[1])
         return _cls(obs, case, 0)
@@ -174,8 +187,8 @@ def _cls(obs, case, npings):
                 near = True
     nt = npings >= 3 and (silent or near)
     obs.cls = (f"ratio:{'I<=2T' if T and I <= 2 * T else 'I>2T'}", f"silent:{int(silent)}", f"traffic:{min(len(tr), 4)}", f"near_ping_traffic:{int(near)}",
-               f"pings:{min(npings // 5 * 5, 30)}", f"late_pongs:{int(any(l is not None and T and l >= T for l in case.get('pong', [])))}", f"tls:{int(bool(case.get('secure')))}", f"second_run:{int(bool(case.get('rerun')))}")
-    obs.nt = repr((I, T, case.get("pong"), case.get("silent_from"), tr, case.get("choices"), sorted((case.get("preempt") or {}).items()), case.get("payload"), case.get("secure"), case.get("rerun"), case.get("pong_with_data"))) if nt else None
+               f"pings:{min(npings // 5 * 5, 30)}", f"late_pongs:{int(any(l is not None and T and l >= T for l in case.get('pong', [])))}", f"tls:{int(bool(case.get('secure')))}", f"external_dispatcher:{int(bool(case.get('external')))}", f"second_run:{int(bool(case.get('rerun')))}")
+    obs.nt = repr((I, T, case.get("pong"), case.get("silent_from"), tr, case.get("choices"), sorted((case.get("preempt") or {}).items()), case.get("payload"), case.get("secure"), case.get("external"), case.get("rerun"), case.get("pong_with_data"))) if nt else None
     return obs
 
 
@@ -195,11 +208,22 @@ def grid_cases():
             yield {"interval": I, "timeout": T, "secure": True, "silent_from": 1, "traffic": [[3 * I + 0.3 * T, "data"], [3 * I + 0.9 * T, "data"]]}
             yield {"interval": I, "timeout": T, "pong_with_data": 1}
             yield {"interval": I, "timeout": T, "pong_with_data": 30, "secure": True}
+            # the same through an external (rel-style) dispatcher, which runs the liveness check on its own timer
+            yield {"interval": I, "timeout": T, "external": True}
+            yield {"interval": I, "timeout": T, "external": True, "silent_from": 1}
+            yield {"interval": I, "timeout": T, "external": True, "silent_from": 3, "traffic": [[5 * I + 0.3 * T, "data"], [6 * I + 0.9 * T, "ping"]], "secure": True}
             yield {"interval": I, "timeout": T, "rerun": True, "silent_from": 1}
             yield {"interval": I, "timeout": T, "rerun": True, "payload": "again"}
             for n in (0, 1, 3):
                 yield {"interval": I, "timeout": T, "silent_from": n}
                 yield {"interval": I, "timeout": T, "silent_from": n, "traffic": [[(n + 2) * I + 0.3 * T, "data"], [(n + 2) * I + 0.9 * T, "data"], [(n + 2) * I + 1.4 * T, "ping"]]}
+    # interval only (no timeout): pings go on for as long as the connection is up, whether or not they are answered
+    for I in (1, 2.5, 10):
+        for sec in (False, True):
+            yield {"interval": I, "timeout": None, "secure": sec}
+            yield {"interval": I, "timeout": None, "secure": sec, "pong": [0.01, 0.01, None, 0.01, None, None, 0.01], "payload": "hb"}
+            for n in (0, 1, 3):
+                yield {"interval": I, "timeout": None, "secure": sec, "silent_from": n, "traffic": [[(n + 2) * I + 0.3, "data"], [(n + 4) * I + 0.1, "ping"]]}
     for I, T in [(1, 1), (1, 2), (5, 5), (0.5, 3), (-1, None), (-1, 3), (-0.5, 1), (10, 0), (0, 0), (10, -1), (0, -3), (None, -1), (2, 2.0), (3, 3.5)]:
         yield {"interval": I, "timeout": T, "invalid": True}
 
@@ -208,6 +232,11 @@ def grid_cases():
 def cases(draw):
     T = draw(st.sampled_from(TS))
     I = draw(st.sampled_from(ratios(T)))
+    if draw(st.integers(0, 7)) == 0:
+        # interval only
+        return {"interval": I, "timeout": None, "payload": draw(st.sampled_from(["", "hb"])), "secure": draw(st.booleans()), "rerun": draw(st.integers(0, 3)) == 0,
+                "pong": draw(st.lists(st.sampled_from([0.0, 0.01, 0.5, None, None]), max_size=10)), "default_lat": draw(st.sampled_from([0.0, 0.01, 2.0])),
+                "traffic": sorted([round(draw(st.integers(1, 12)) * I + draw(st.sampled_from([-0.1, 0.0, 0.2])), 4), draw(st.sampled_from(["data", "ping", "pong"]))] for _ in range(draw(st.integers(0, 4))))}
     c = {"interval": I, "timeout": T, "payload": draw(st.sampled_from(["", "", "hb", "é"])), "secure": draw(st.integers(0, 2)) == 0,
          "rerun": draw(st.integers(0, 3)) == 0, "pong_with_data": draw(st.sampled_from([0, 0, 1, 20]))}
     mode = draw(st.sampled_from(["responsive", "responsive", "silent", "silent", "late"]))
@@ -219,6 +248,8 @@ def cases(draw):
     else:
         c["pong"] = draw(st.lists(fast, max_size=8))
         c["default_lat"] = draw(st.sampled_from([0.0, 0.01, 0.5 * T, 0.99 * T]))
+    if draw(st.integers(0, 4)) == 0:
+        c["external"] = True
     ntr = draw(st.integers(0, 8))
     tr = []
     for _ in range(ntr):
